@@ -113,7 +113,13 @@ func buildVersion(v, perm int) *migProfile {
 	for form := 0; form < gen.NumForms; form++ {
 		for _, i := range order {
 			from, to := chain[i][0], chain[i][1]
-			errors.RegisterTypeMigration(gen.MigPkgPath, gen.MigTypeName(from, form), gen.MigNew(to, form, "", errProbe))
+			if p := obs.S(func() string {
+				errors.RegisterTypeMigration(gen.MigPkgPath, gen.MigTypeName(from, form), gen.MigNew(to, form, "", errProbe))
+				return ""
+			}); p != "" {
+				mp.problems = append(mp.problems, Violation{Prop: "C17", Oracle: "chain-registers-in-any-order", Culprit: "RegisterTypeMigration", Config: "order=[" + orderDesc + "]",
+					Expected: "accepted", Observed: short(p), Where: versionNames[v] + " " + gen.FormNames[form]})
+			}
 			if probe {
 				_ = errors.GetTypeKey(gen.MigNew(to, form, "", errProbe))
 				_ = errors.GetTypeKey(gen.MigNew(versionName[v], form, "", errProbe))
@@ -223,6 +229,12 @@ func buildVersion(v, perm int) *migProfile {
 		errors.RegisterTypeMigration(gen.MigPkgPath, "*gen.XFooP", gen.XBarV{})
 		errors.RegisterTypeMigration(gen.MigPkgPath, "gen.XFooV", &gen.XBarP{})
 		errors.RegisterTypeMigration(gen.MigPkgPath, "*gen.FooMulti", &gen.BarMulti{})
+		errors.RegisterTypeMigration(gen.MigPkgPath, "gen.XOldCode", gen.XCode(0))
+		errors.RegisterLeafDecoder(errors.GetTypeKey(gen.XCode(0)), func(_ context.Context, msg string, _ []string, _ proto.Message) error {
+			var n int
+			fmt.Sscanf(msg, "TKUcodeQ %d", &n)
+			return gen.XCode(n)
+		})
 		errors.RegisterTypeMigration(gen.MigPkgPath, "*gen.GFoo[int]", &gen.GBar[int]{})
 		errors.RegisterLeafDecoder(errors.GetTypeKey(&gen.GBar[int]{}), func(_ context.Context, msg string, _ []string, _ proto.Message) error {
 			return &gen.GBar[int]{Msg: msg}
@@ -245,6 +257,7 @@ func buildVersion(v, perm int) *migProfile {
 		}{
 			{"pointer-to-value", gen.MigPkgPath + "/*gen.XFooP", func() error { return gen.XBarV{Msg: "TKUxvQ"} }},
 			{"value-to-pointer", gen.MigPkgPath + "/gen.XFooV", func() error { return &gen.XBarP{Msg: "TKUxpQ"} }},
+			{"basic-kind", gen.MigPkgPath + "/gen.XOldCode", func() error { return gen.XCode(7) }},
 			{"generic-instantiation", gen.MigPkgPath + "/*gen.GFoo[int]", func() error { return &gen.GBar[int]{Msg: "TKUgenQ"} }},
 			{"typed-nil-pointer", gen.MigPkgPath + "/*gen.XNilFoo", func() error { return (*gen.XNilBar)(nil) }},
 			{"nil-safe-type", gen.MigPkgPath + "/*gen.XNilFoo", func() error { return &gen.XNilBar{Msg: "TKUxnQ"} }},
